@@ -312,7 +312,50 @@ def plan_C10(tier, seed):
         exhaustive=True, assumptions=["TLC", "Go runtime recover() / deadline as the observation of panics and hangs"])
 
 
-PLANS = {"C10": plan_C10, "C13": plan_C13, "C14": plan_C14, "C20": plan_C20, "C15": plan_C15, "C05": plan_C05, "C18": plan_C18, "C19": plan_C19, "C17": plan_C17, "C08": plan_C08, "C11": plan_C11, "C12": plan_C12, "C03": plan_C03, "C06": plan_C06, "C01": plan_C01, "C02": plan_C02, "C07": plan_C07}
+def infer_plan(prefix, tier, kinds, rule):
+    k = 1 if tier == "quick" else 2
+    jobs = [tlc("%s_%s" % (prefix, f), "MC_Infer", {"Family": q(f), "K": k, "CheckKnown": "FALSE"}, ["Sound", "SpecEq", "Emit"], workers=6)
+            for f in ("T", "S", "X")]
+    return dict(
+        tlc=jobs, parallel=3,
+        replay=[dict(name=prefix + "_replay", family="infer", inputs=[j["name"] for j in jobs], codegen=True, kinds=kinds)],
+        rule=rule, exhaustive=True,
+        assumptions=["TLC", "generated Go source for the enumerated types (harness gentypes)", "encoding/json as the encoder/decoder",
+                     "GoTypes.tla's model of encoding/json is compared with the real json.Marshal on every value (mismatch = exit 2)"])
+
+
+INFER_UNIVERSE = ("types enumerated by TLC (MC_Infer): T = all primitive kinds, interfaces, std marshaler types and pointers/slices/"
+                  "arrays/maps of them (thorough: nested twice); S = structs: every field type x every tag form (none, name, "
+                  "omitempty, omitzero, name+both, '-', '-,', unexported), two-field orders, embedding by value and by non-nil "
+                  "pointer with promoted and Go-name-shadowed fields; X = one JSON name claimed by two fields, tagged embedded "
+                  "field (known finding); Go source is generated and compiled for every type; values: zero, nils, extremes of "
+                  "every sized integer, empty and non-empty containers, each struct field varied alone; ")
+
+
+def plan_C04(tier, seed):
+    return infer_plan("c04", tier, ["encoding-rejected", "for-error", "for-unresolvable"],
+                      INFER_UNIVERSE + "C04: the real json.Marshal of every value, decoded, must validate against Resolve(ForType(T)); "
+                      "TLC checks the same on the model (Sound). Non-trivial = struct/container types; distinct by type")
+
+
+def plan_C09(tier, seed):
+    return infer_plan("c09", tier, ["accepted-but-undecodable"],
+                      INFER_UNIVERSE + "C09: every single-point mutation of every valid encoding (drop a key, add a key, a key in "
+                      "another letter case, swap a value's JSON type, push an integer past each sized bound, add a fraction, null, "
+                      "array one longer/shorter) that the inferred schema still accepts (validated as a document with exact "
+                      "numbers) must decode into T with DisallowUnknownFields; std marshaler types excluded. Mutations are "
+                      "generated by the harness from the real encoding (the specification supplies types and values)")
+
+
+def plan_C16(tier, seed):
+    return infer_plan("c16", tier, ["inferred-schema", "for-nondeterministic", "for-shares-nodes", "for-unresolvable", "for-error"],
+                      INFER_UNIVERSE + "C16: ForType twice: byte-equal, no shared *Schema (reflective walker), Resolve accepts, and the "
+                      "marshaled schema equals InferSpec(T) rendered as a Schema literal (properties = encoding/json's dominant "
+                      "fields, JSON names, field order via PropertyOrder, required iff no omitempty/omitzero, pointer adds null); "
+                      "TLC checks InferCode = InferSpec (SpecEq)")
+
+
+PLANS = {"C04": plan_C04, "C09": plan_C09, "C16": plan_C16, "C10": plan_C10, "C13": plan_C13, "C14": plan_C14, "C20": plan_C20, "C15": plan_C15, "C05": plan_C05, "C18": plan_C18, "C19": plan_C19, "C17": plan_C17, "C08": plan_C08, "C11": plan_C11, "C12": plan_C12, "C03": plan_C03, "C06": plan_C06, "C01": plan_C01, "C02": plan_C02, "C07": plan_C07}
 
 
 def plan(prop, tier, seed):
